@@ -47,6 +47,24 @@ def run_seeded(W, cfg):
         W.ob_true('non-negative integer counts', bool(((out >= 0) if not W.sym else W.array([[out[i, j] >= 0 for j in range(shp[1])] for i in range(shp[0])])).all()))
         out2 = D.shot_noise(img, method='poisson', seed=seed)
         W.ob('same seed, same arguments: same result', out2, out)
+
+        def too_large_rejected():
+            import numpy as _np
+            for big in (1e19, 9.3e18, _np.array([[1.0, 1e20]])):
+                try:
+                    W.lentil.detector.shot_noise(big, method='poisson', seed=1)
+                    return False
+                except ValueError:
+                    pass
+            for neg in (-1.0, _np.array([[3.0, -0.5]])):
+                try:
+                    W.lentil.detector.shot_noise(neg, method='poisson', seed=1)
+                    return False
+                except ValueError:
+                    pass
+            ok = W.lentil.detector.shot_noise(_np.array([[0.0, 4.0e18]]), method='poisson', seed=1)
+            return bool(_np.all(_np.isfinite(ok)) and _np.all(ok >= 0))
+        W.ob_concrete('unrepresentably large and negative signals are rejected with ValueError; the largest representable ones are accepted (numpy generator limits)', too_large_rejected)
     elif fn == 'gaussian':
         img = W.reals('img', shp, pos=True, hi=1000)
         out = D.shot_noise(img, method='gaussian', seed=seed)
